@@ -308,25 +308,14 @@ impl Entry {
     pub fn as_bytes(&self) -> Vec<u8> {
         let mut bytes = Vec::new();
         for c in &self.checksums {
-            bytes.extend_from_slice(
-                format!(
-                    "{} ({}) = {}\n",
-                    c.digest,
-                    self.filename.display(),
-                    c.hash
-                )
-                .as_bytes(),
-            );
+            bytes.extend_from_slice(format!("{} (", c.digest).as_bytes());
+            bytes.extend_from_slice(self.filename.as_os_str().as_bytes());
+            bytes.extend_from_slice(format!(") = {}\n", c.hash).as_bytes());
         }
         if let Some(size) = self.size {
-            bytes.extend_from_slice(
-                format!(
-                    "Size ({}) = {} bytes\n",
-                    self.filename.display(),
-                    size
-                )
-                .as_bytes(),
-            );
+            bytes.extend_from_slice(b"Size (");
+            bytes.extend_from_slice(self.filename.as_os_str().as_bytes());
+            bytes.extend_from_slice(format!(") = {} bytes\n", size).as_bytes());
         }
         bytes
     }
@@ -683,39 +672,24 @@ impl Distinfo {
 
         for q in self.distfiles.values() {
             for c in &q.checksums {
-                bytes.extend_from_slice(
-                    format!(
-                        "{} ({}) = {}\n",
-                        c.digest,
-                        q.filename.display(),
-                        c.hash
-                    )
-                    .as_bytes(),
-                );
+                bytes.extend_from_slice(format!("{} (", c.digest).as_bytes());
+                bytes.extend_from_slice(q.filename.as_os_str().as_bytes());
+                bytes.extend_from_slice(format!(") = {}\n", c.hash).as_bytes());
             }
             if let Some(size) = q.size {
+                bytes.extend_from_slice(b"Size (");
+                bytes.extend_from_slice(q.filename.as_os_str().as_bytes());
                 bytes.extend_from_slice(
-                    format!(
-                        "Size ({}) = {} bytes\n",
-                        q.filename.display(),
-                        size
-                    )
-                    .as_bytes(),
+                    format!(") = {} bytes\n", size).as_bytes(),
                 );
             }
         }
 
         for q in self.patchfiles.values() {
             for c in &q.checksums {
-                bytes.extend_from_slice(
-                    format!(
-                        "{} ({}) = {}\n",
-                        c.digest,
-                        q.filename.display(),
-                        c.hash
-                    )
-                    .as_bytes(),
-                );
+                bytes.extend_from_slice(format!("{} (", c.digest).as_bytes());
+                bytes.extend_from_slice(q.filename.as_os_str().as_bytes());
+                bytes.extend_from_slice(format!(") = {}\n", c.hash).as_bytes());
             }
         }
 
